@@ -172,6 +172,9 @@ class Ctx:
             return [fn(x) for x in items]
         if chunk is None:
             chunk = max(1, min(256, len(items) // (self.workers * 8) or 1))
+        import gc
+
+        gc.collect()  # no sqlite garbage left for the pool's helper threads to finalise
         mp = multiprocessing.get_context("fork")
         with mp.Pool(self.workers) as pool:
             return pool.map(fn, items, chunksize=chunk)
